@@ -205,6 +205,38 @@ pub fn dump(w: &mut World, t: &mut Toks) -> String {
         bals.push(format!("{}:{}", tok, w.balance(LP_ID, tok, 0)));
     }
     s += &format!(" bal={}", fmt_list(&bals));
+    // the public getters must report what the storage holds (implementation vs implementation)
+    let mut bad_views: Vec<&str> = Vec::new();
+    {
+        let mut chk = |name: &'static str, view: &str, raw: Vec<u8>| {
+            let r = w.query(view, &[]);
+            let got: Vec<u8> = if status_class(&r) == "ok" { r.result_values.first().cloned().unwrap_or_default() } else { b"<error>".to_vec() };
+            if got != raw {
+                bad_views.push(name);
+            }
+        };
+        chk("getLaunchStageFlags", "getLaunchStageFlags", get(&st, b"flags").to_vec());
+        chk("getConfiguration", "getConfiguration", get(&st, b"configuration").to_vec());
+        chk("getTicketPrice", "getTicketPrice", get(&st, b"ticketPrice").to_vec());
+        chk("getLaunchpadTokensPerWinningTicket", "getLaunchpadTokensPerWinningTicket", get(&st, b"launchpadTokensPerWinningTicket").to_vec());
+        chk("getNumberOfWinningTickets", "getNumberOfWinningTickets", get(&st, b"nrWinningTickets").to_vec());
+        chk("getTotalNumberOfTickets", "getTotalNumberOfTickets", get(&st, b"lastTicketId").to_vec());
+        chk("getTotalLaunchpadTokensDeposited", "getTotalLaunchpadTokensDeposited", get(&st, b"totalLaunchpadTokensDeposited").to_vec());
+        chk("getSupportAddress", "getSupportAddress", get(&st, b"supportAddress").to_vec());
+        chk("getLaunchpadTokenId", "getLaunchpadTokenId", get(&st, b"launchpadTokenId").to_vec());
+        chk("isPaused", "isPaused", get(&st, b"pause_module:paused").to_vec());
+        if nft {
+            chk("getNftCost", "getNftCost", get(&st, b"nftCost").to_vec());
+        }
+        if locked {
+            chk("getLaunchpadTokensLockPercentage", "getLaunchpadTokensLockPercentage", get(&st, b"launchpadTokensLockPercentage").to_vec());
+            chk("getLaunchpadTokensUnlockEpoch", "getLaunchpadTokensUnlockEpoch", get(&st, b"launchpadTokensUnlockEpoch").to_vec());
+        }
+        if vested && !get(&st, b"unlockSchedule").is_empty() {
+            chk("getUnlockSchedule", "getUnlockSchedule", get(&st, b"unlockSchedule").to_vec());
+        }
+    }
+    s += &format!(" views={}", if bad_views.is_empty() { "ok".to_string() } else { bad_views.join("+") });
     // ticket-space internals from raw storage (every key, whatever its id)
     let mut status: Vec<u64> = Vec::new();
     let mut p2i: Vec<(u64, u64)> = Vec::new();
@@ -318,6 +350,30 @@ pub fn dump(w: &mut World, t: &mut Toks) -> String {
                 show_uts(v2, get(&st, &key_addr("userTicketStatus", a))),
                 show_uts(v2, get(&st, &key_addr("blacklistUserTicketStatus", a))),
             );
+            if variant != "lockedGuar" && variant != "nftGuar" {
+                // the per-participant status view (crates 4, 5, 6)
+                let uv = match w.view_vals("getUserTicketsStatus", a) {
+                    Ok(v) => {
+                        if v2 {
+                            // (allowance, ManagedVec<GuaranteedTicketInfo>): second value is the items, 8 bytes each
+                            let allow = v.first().map(|b| be_big(b).to_string()).unwrap_or("0".to_string());
+                            let raw = v.get(1).cloned().unwrap_or_default();
+                            let mut infos = Vec::new();
+                            let mut r = Rd::new(&raw);
+                            while !r.b.is_empty() && r.ok {
+                                let g = r.u32();
+                                let m = r.u32();
+                                infos.push(format!("{g}/{m}"));
+                            }
+                            format!("{}:{}", allow, fmt_list(&infos))
+                        } else {
+                            v.iter().map(|b| be_big(b).to_string()).collect::<Vec<_>>().join(":")
+                        }
+                    }
+                    Err(c) => c.to_string(),
+                };
+                s += &format!(" utsview={}", uv);
+            }
         }
         if vested {
             s += &format!(
